@@ -115,7 +115,10 @@ def callH (w : World) (o f : Nat) (a : Args) : List HOp :=
 def machineScript (n : Nat) (w : World) (st : HState) (op : Tromp.Op) : List HOp :=
   if !w.legal op then [] else
   match op with
-  | .seq s => if s < n ∧ st.alive s = false then [HOp.newSeq s] else []
+  | .seq s =>
+    -- a fresh id has no object yet; were the id in use (no reachable world), the old object is torn down first, which is what the
+    -- model's overwriting of the record amounts to
+    if s < n then (if st.alive s = true then [HOp.killSeq s, HOp.newSeq s] else [HOp.newSeq s]) else []
   | .expect e x =>
     if x.rt && decide (x.hi < x.lo) then [] else
     match w.mocks x.obj with
@@ -268,28 +271,40 @@ theorem machine_step {n : Nat} {w : World} {st : HState} (L : MLink n w st) (op 
       intro s'; rw [h1]; by_cases hs : s' = s <;> simp [seqAlive, upd, hs]
     have hk : ∀ o s', st.ptr o s' = true → known (w.step (.seq s)).1 o := by
       intro o s' h; have := L.known o s' h; rw [h1]; cases o <;> exact this
-    by_cases c : s < n ∧ st.alive s = false
-    · have h2 : machineScript n w st (.seq s) = [HOp.newSeq s] := by unfold machineScript; simp only [hnl, c]; simp
-      rw [h2]
-      refine ⟨⟨c.2, trivial⟩, ⟨fun s' hs' => ?_, hk⟩⟩
-      show (if s' = s then true else st.alive s') = _
-      rw [ha]
-      by_cases e : s' = s
-      · simp [e]
-      · simp only [e, if_false]; exact L.alive s' hs'
+    by_cases c : s < n
+    · by_cases al : st.alive s = true
+      · have h2 : machineScript n w st (.seq s) = [HOp.killSeq s, HOp.newSeq s] := by
+          unfold machineScript; simp only [hnl, c, al]; simp
+        rw [h2]
+        refine ⟨⟨c, ?_, trivial⟩, ⟨fun s' hs' => ?_, fun o s' h => ?_⟩⟩
+        · show (if s = s then false else st.alive s) = false
+          simp
+        · show (if s' = s then true else (if s' = s then false else st.alive s')) = _
+          rw [ha]
+          by_cases e : s' = s
+          · simp [e]
+          · simp only [e, if_false]; exact L.alive s' hs'
+        · have h' : (if s' = s then false else st.ptr o s') = true := h
+          by_cases e : s' = s
+          · simp [e] at h'
+          · simp only [e, if_false] at h'; exact hk o s' h'
+      · have al' : st.alive s = false := by simpa using al
+        have h2 : machineScript n w st (.seq s) = [HOp.newSeq s] := by
+          unfold machineScript; simp only [hnl, c, al']; simp
+        rw [h2]
+        refine ⟨⟨al', trivial⟩, ⟨fun s' hs' => ?_, hk⟩⟩
+        show (if s' = s then true else st.alive s') = _
+        rw [ha]
+        by_cases e : s' = s
+        · simp [e]
+        · simp only [e, if_false]; exact L.alive s' hs'
     · have h2 : machineScript n w st (.seq s) = [] := by unfold machineScript; simp only [hnl, c]; simp
       rw [h2]
       refine ⟨trivial, ⟨fun s' hs' => ?_, hk⟩⟩
       show st.alive s' = _
       rw [ha]
-      by_cases e : s' = s
-      · subst e
-        have : st.alive s' = true := by
-          cases hh : st.alive s' with
-          | true => rfl
-          | false => exact absurd ⟨hs', hh⟩ c
-        simp [this]
-      · simp only [e, if_false]; exact L.alive s' hs'
+      have : s' ≠ s := by omega
+      simp only [this, if_false]; exact L.alive s' hs'
   | expect e x =>
     have hl' := hl
     simp only [legal, Bool.and_eq_true, beq_iff_eq, decide_eq_true_eq, List.all_eq_true] at hl'
